@@ -35,6 +35,12 @@ STRESS = [
     "class H<int n> { int v = n; } def h0 : H<1> { let v = !add(v, n); } def h1 : H<h0.v>; def h2 { H<3> inner = H<h1.v>; int w = inner.v; }",
     "class W { code c = [{ x }]; string s = \"a\" \"b\"; bit b = true; bits<2> bb = 0b11; dag d = (?); list<list<int>> ll = [[1], []]<list<int>>; }",
     "let a = 1, b<1...2> = 2, c<1> = [3] in def lt; let in def le; let x = in def ly;",
+    # template argument lists: named / positional in every order, more values than parameters, names as strings (also non-ASCII)
+    "class P1<int x>; def a1 : P1<x = 1, 2>; def a2 : P1<z = 0, 1>; class P2 : P1<x = 1, 2, 3>; def a3 : P1<1, 2, x = 3>;",
+    "class Q2<int x, int y>; class Q3 { Q2 a = Q2<x = 1, y = 2, 3>; Q2 b = Q2<y = 1, 2, 3, 4>; } defvar q = Q2<x = 1, x = 2, 5>;",
+    "multiclass MP<int a> { def NAME; } defm mp1 : MP<a = 1, 2>; defm mp2 : MP<b = 1, 2, 3>; multiclass MQ : MP<a = 0, 1> { def q; }",
+    "class S1<int x>; def s1 : S1<\"\u00e9\" = 1>; def s2 : S1<1, \"\u65e5\u672c\" = 2>; defvar s3 = S1<\"na\u00efve\" = 1>; def s4 : S1<\"x\" = 1, \"x\" = 2>;",
+    "multiclass SM<int x> { def NAME; } defm sm1 : SM<\"\u00df\" = 1>; defm sm2 : SM<\"\U0001F600\" = 1, \"x\" = 2>;",
 ]
 
 WIDE = ["// é\n", "/* 😀 \r\n ü */", "\r\n", "// \U000F0001\r", "def w1 { string s = \"größe\U0001F600\"; }\r\n", " ", "\x0c"]
